@@ -30,7 +30,8 @@ Theorem C01_contract_replay : forall C full w o w', wf_fs w -> c01_op C w o -> a
 Proof. exact ctr_ok_covered. Qed.
 Print Assumptions C01_contract_replay.
 
-(* ---- the one-operation replay law.  c01_op = C02's covered_op (Touch, Write, Chmod of a file or a directory other
+(* ---- the one-operation replay law.  c01_op = C02's covered_op minus the directory renames that are not inside the
+   tree of a recursive watch (Touch, Write, Chmod of a file or a directory other
    than the root, Unlink, Mkdir, Rmdir, Rename of a file - inside / out = deleted / in = created / replacing a file,
    normal and full emitter -, Rename of a directory inside the tree of a recursive watch to a fresh name = Moved +
    one synthetic Moved per descendant). *)
@@ -186,14 +187,14 @@ Proof.
   eapply ops_c01_cons; [vm_compute; reflexivity | split; [apply co_quiet; [exact I | now apply Nb] | exact I] |].
   eapply ops_c01_cons; [vm_compute; reflexivity | split; [apply co_quiet; [exact I | now apply Nb] | vm_compute; discriminate] |].
   eapply ops_c01_cons; [vm_compute; reflexivity | split; [apply co_quiet; [exact I | now apply Na] | vm_compute; discriminate] |].
-  eapply ops_c01_cons; [vm_compute; reflexivity | split; [|exact I] |].
+  eapply ops_c01_cons; [vm_compute; reflexivity | split; [|intros _; split; [right; vm_compute; reflexivity | reflexivity]] |].
   { eapply co_rename_dir; try (now apply Na); try reflexivity; try (vm_compute; reflexivity);
       try (right; vm_compute; reflexivity); try (vm_compute; discriminate). }
-  eapply ops_c01_cons; [vm_compute; reflexivity | split; [|exact I] |].
+  eapply ops_c01_cons; [vm_compute; reflexivity | split; [|intros H; vm_compute in H; discriminate] |].
   { eapply co_rename_file; try (now apply Na); try (now apply Nb); try (vm_compute; reflexivity). }
-  eapply ops_c01_cons; [vm_compute; reflexivity | split; [|exact I] |].
+  eapply ops_c01_cons; [vm_compute; reflexivity | split; [|intros H; vm_compute in H; discriminate] |].
   { eapply co_rename_file; try (now apply Na); try (now apply No); try (vm_compute; reflexivity). }
-  eapply ops_c01_cons; [vm_compute; reflexivity | split; [|exact I] |].
+  eapply ops_c01_cons; [vm_compute; reflexivity | split; [|intros H; vm_compute in H; discriminate] |].
   { eapply co_rename_file; try (now apply No); try (now apply Nb); try (vm_compute; reflexivity). }
   eapply ops_c01_cons; [vm_compute; reflexivity | split; [apply co_quiet; [exact I | now apply Nb] | exact I] |].
   eapply ops_c01_cons; [vm_compute; reflexivity | split; [apply co_rmdir; [now apply Nb | vm_compute; discriminate] | exact I] |].
